@@ -141,6 +141,8 @@ DESC_FAULTS = {
     "missing-distribution": "any",
     "conditional-without-parameters": "cond",
     "unknown-description-key": "any",
+    "two-unknown-description-keys": "any",
+    "unknown-description-key-non-string": "any",
     "unknown-parameter-name": "cond",
     "parameter-fixed-and-dependent": "cond",
     "parameter-fixed-at-zero-and-dependent": "cond",  # a falsy fixed value (f_gamma=0 is what the predefined models use)
@@ -539,6 +541,11 @@ def run_pipeline(pipe, faults, run=None):
                 del desc["parameters"]
             if has("unknown-description-key", i):
                 desc["distributon"] = dist
+            if has("two-unknown-description-keys", i):
+                desc["interval"] = desc.get("intervals")
+                desc["condition_on"] = 0
+            if has("unknown-description-key-non-string", i):
+                desc[0] = dist
             if has("unknown-parameter-name", i):
                 desc["parameters"]["not_a_parameter"] = DependenceFunction(make_func("poly1", [1.0, 1.0]))
             if has("conditional-on-self", i):
